@@ -380,11 +380,12 @@ class SparseEncoding(Encoding):
         return np.asarray(mat).squeeze(axis=-1)
 
     def mask(self, mask):
-        i, _ = np.where(self._csc[mask.reshape((-1,))])
-        return self._shaped_indices(i)
+        if isinstance(mask, Encoding):
+            mask = mask.dense
+        return self.gather_nd(np.column_stack(np.where(mask)))
 
     def get_value(self, index):
-        return self._gather_nd(np.expand_dims(index, axis=0))[0]
+        return self.gather_nd(np.expand_dims(index, axis=0))[0]
 
     @caching.cache_decorator
     def stripped(self):
